@@ -55,6 +55,19 @@ CLAIMED = {
         note=STATIC_NOTE + 'The Cp least-squares fit is an uninterpreted function returning zero integration slots '
              '(that premise is itself checked structurally).',
         ref='DESIGN.md section 4 C03'),
+    'C18': dict(
+        technique='abstract interpretation over abstract strings: identifiers = symbolic prefix + literal delimiter + '
+                  'suffix N+k (symbolic base, concrete offsets, known printed width); tokens = symbolic text of '
+                  'concrete width; emitted ranges re-expanded and compared as sets',
+        text='Decides for 4 prefix shapes (short, long, empty, containing the delimiter) x 6 offset patterns (single, '
+             'unsorted, gaps, duplicates) x 2 suffix widths x optional second interleaved prefix x strings/objects-with-'
+             'id that the emitted ranges denote exactly the identifiers given (none lost or added), each spelled as it '
+             'came, that list and string forms agree, that non-string ids and non-integer suffixes are rejected; and for '
+             '10+ token-width patterns x 5 width settings that obj_to_cti keeps every token once and in order, adds only '
+             'separators, and lets no line exceed its limit unless it holds a single token.',
+        note=STATIC_NOTE + 'Prefix parts are letter strings; suffixes are base+offset integers; bounded to the '
+             'enumerated patterns of offsets and widths (the code is uniform in the values).',
+        ref='DESIGN.md section 4 C18'),
     'C20': dict(
         technique='abstract interpretation of the EOS getters into rational normal forms; polynomial identity of the '
                   'cubic handed to np.roots',
